@@ -29,6 +29,7 @@ const (
 	modBytes
 	modGhost
 	modSpare
+	modMem // all byte/scalar array memory
 )
 
 type ModItem struct {
@@ -580,6 +581,10 @@ func (p *contractParser) modifies(rest string) (items []ModItem, all bool, err e
 		}
 		if part == "*" {
 			all = true
+			continue
+		}
+		if part == "mem" {
+			items = append(items, ModItem{Kind: modMem, Src: part})
 			continue
 		}
 		switch {
